@@ -551,7 +551,7 @@ func (ev *Evaluator) noteTolerance(a, b *m.Val) {
 	}
 	for i := range times {
 		for j := i + 1; j < len(times); j++ {
-			if times[i].Go().Equal(times[j].Go()) && (times[i].Zone != times[j].Zone || times[i].Off != times[j].Off) {
+			if times[i].Go().Equal(times[j].Go()) && !m.SameZone(*times[i], *times[j]) {
 				ev.flag("equal-instants-different-zones")
 			}
 		}
